@@ -54,6 +54,7 @@ def run(run, ix, tier):
     iv_rules.check_composition(run, ix, False)
     # C-R14: endpoints taken directly from transcendental kernels
     check_transcendental_endpoints(run, ix)
+    check_percent_halfwidth(run, ix)
     check_outward_helper(run, ix)
     # literal forms (rules of the C07 module, reported here as C-R6)
     from ..report import SubRun
@@ -745,3 +746,37 @@ def check_outward_helper(run, ix):
         else:
             run.fail(Finding('C-R19', LIBMPI, 'mpf_outward', norm(r), 'the kernel value is handed back without '
                              'widening under `%s`' % (t or 'no condition'), line=r.lineno))
+
+
+# --------------------------------------------------------------------------- C-R2x
+def check_percent_halfwidth(run, ix):
+    """C-R2x.  The table C_OPERAND_EXEMPT lets mpi_from_str_a_b multiply a rounded operand in a non-monotone position
+    because "both factors are non-negative upper bounds (max of the absolute values of the centre)".  That reason is
+    checked here: the first factor of the percent product must be an upper bound of |x| over the enclosure of the
+    centre, i.e. MAX / max of mpf_abs of BOTH conversions of the centre text (floor and ceiling).  |ceiling(x)| alone is
+    below |x| for a negative centre: '-0.5000...01 +- 300%' then misses its upper end."""
+    run.rule('C-R2x', floor=1, desc='percent half-width of an interval literal is computed from an upper bound of |centre|')
+    f = ix.func(LIBMPI, 'mpi_from_str_a_b')
+    conv = {}
+    for a in _walk_own(f.node):
+        if isinstance(a, ast.Assign) and isinstance(a.value, ast.Call) and norm(a.value.func) == 'from_str' \
+                and len(a.value.args) > 2 and norm(a.value.args[0]) == f.params[0]:
+            conv[norm(a.targets[0])] = norm(a.value.args[2])
+    lo = [k for k, v in conv.items() if v == 'round_floor']
+    hi = [k for k, v in conv.items() if v == 'round_ceiling']
+    muls = [c for c in _walk_own(f.node) if isinstance(c, ast.Call) and norm(c.func) == 'mpf_mul']
+    if not muls or not lo or not hi:
+        raise AnalysisError('mpi_from_str_a_b: percent product / centre conversions not found')
+    for m in muls:
+        a0 = m.args[0]
+        ok = isinstance(a0, ast.Call) and norm(a0.func) in ('MAX', 'max') and len(a0.args) == 2 and \
+            all(isinstance(x, ast.Call) and norm(x.func) == 'mpf_abs' for x in a0.args) and \
+            {norm(x.args[0]) for x in a0.args} == {lo[0], hi[0]}
+        if ok and len(m.args) > 3 and norm(m.args[3]) == 'round_ceiling':
+            run.ok('C-R2x', 'mpi_from_str_a_b: half-width = max(|floor x|, |ceiling x|) * y rounded up')
+        else:
+            run.fail(Finding('C-R2x', LIBMPI, 'mpi_from_str_a_b', norm(m), 'the percent half-width is not computed from '
+                             'max(|%s|, |%s|) rounded up: the magnitude of one conversion of the centre alone is below '
+                             '|centre| when the centre has the other sign, the half-width comes out too small and the '
+                             'interval misses an end of the denoted range (\'-0.50000000000000000000000000001 +- 300%%\')'
+                             % (lo[0], hi[0]), line=m.lineno))
